@@ -215,6 +215,117 @@ variable {α : Type} [RealLike α]
 @[simp] theorem setColsWhere_get (A : Arr α) (M : Arr Bool) (s : α) (i j : Nat) :
     (setColsWhere A M s).get i j = if M.get 0 j then s else A.get i j := rfl
 
+@[simp] theorem repeat0_r (A : Arr α) (m : Nat) : (repeat0 A m).r = A.r * m := rfl
+@[simp] theorem repeat0_c (A : Arr α) (m : Nat) : (repeat0 A m).c = A.c := rfl
+@[simp] theorem repeat0_ok (A : Arr α) (m : Nat) : (repeat0 A m).ok = A.ok := rfl
+@[simp] theorem repeat0_get (A : Arr α) (m i j : Nat) : (repeat0 A m).get i j = A.get (i / m) j := rfl
+
+end Arr
+
+@[simp] theorem fin_val_div_self {n : Nat} (i : Fin n) : i.val / n = 0 := Nat.div_eq_of_lt i.isLt
+
+/-! ### 3-D arrays -/
+
+namespace Arr3
+variable {α : Type} [RealLike α]
+
+@[simp] theorem expandFirst_d0 (A : Arr α) : (expandFirst A).d0 = 1 := rfl
+@[simp] theorem expandFirst_d1 (A : Arr α) : (expandFirst A).d1 = A.r := rfl
+@[simp] theorem expandFirst_d2 (A : Arr α) : (expandFirst A).d2 = A.c := rfl
+@[simp] theorem expandFirst_ok (A : Arr α) : (expandFirst A).ok = A.ok := rfl
+@[simp] theorem expandFirst_get (A : Arr α) (i j k : Nat) : (expandFirst A).get i j k = A.get j k := rfl
+
+@[simp] theorem expandMid_d0 (A : Arr α) : (expandMid A).d0 = A.r := rfl
+@[simp] theorem expandMid_d1 (A : Arr α) : (expandMid A).d1 = 1 := rfl
+@[simp] theorem expandMid_d2 (A : Arr α) : (expandMid A).d2 = A.c := rfl
+@[simp] theorem expandMid_ok (A : Arr α) : (expandMid A).ok = A.ok := rfl
+@[simp] theorem expandMid_get (A : Arr α) (i j k : Nat) : (expandMid A).get i j k = A.get i k := rfl
+
+@[simp] theorem expandLast_d0 (A : Arr α) : (expandLast A).d0 = A.r := rfl
+@[simp] theorem expandLast_d1 (A : Arr α) : (expandLast A).d1 = A.c := rfl
+@[simp] theorem expandLast_d2 (A : Arr α) : (expandLast A).d2 = 1 := rfl
+@[simp] theorem expandLast_ok (A : Arr α) : (expandLast A).ok = A.ok := rfl
+@[simp] theorem expandLast_get (A : Arr α) (i j k : Nat) : (expandLast A).get i j k = A.get i j := rfl
+
+@[simp] theorem transpose021_d0 (T : Arr3 α) : (transpose021 T).d0 = T.d0 := rfl
+@[simp] theorem transpose021_d1 (T : Arr3 α) : (transpose021 T).d1 = T.d2 := rfl
+@[simp] theorem transpose021_d2 (T : Arr3 α) : (transpose021 T).d2 = T.d1 := rfl
+@[simp] theorem transpose021_ok (T : Arr3 α) : (transpose021 T).ok = T.ok := rfl
+@[simp] theorem transpose021_get (T : Arr3 α) (i j k : Nat) : (transpose021 T).get i j k = T.get i k j := rfl
+
+@[simp] theorem matmul_d0 (S T : Arr3 α) : (matmul S T).d0 = bdim S.d0 T.d0 := rfl
+@[simp] theorem matmul_d1 (S T : Arr3 α) : (matmul S T).d1 = S.d1 := rfl
+@[simp] theorem matmul_d2 (S T : Arr3 α) : (matmul S T).d2 = T.d2 := rfl
+@[simp] theorem matmul_ok (S T : Arr3 α) : (matmul S T).ok = (S.ok && T.ok && bok S.d0 T.d0 && S.d2 == T.d1) := rfl
+@[simp] theorem matmul_get (S T : Arr3 α) (i j k : Nat) : (matmul S T).get i j k = sumTo S.d2 fun l => S.get (bidx S.d0 i) j l * T.get (bidx T.d0 i) l k := rfl
+
+@[simp] theorem zipWith_d0 (f : α → α → α) (S T : Arr3 α) : (zipWith f S T).d0 = bdim S.d0 T.d0 := rfl
+@[simp] theorem zipWith_d1 (f : α → α → α) (S T : Arr3 α) : (zipWith f S T).d1 = bdim S.d1 T.d1 := rfl
+@[simp] theorem zipWith_d2 (f : α → α → α) (S T : Arr3 α) : (zipWith f S T).d2 = bdim S.d2 T.d2 := rfl
+@[simp] theorem zipWith_ok (f : α → α → α) (S T : Arr3 α) : (zipWith f S T).ok = (S.ok && T.ok && bok S.d0 T.d0 && bok S.d1 T.d1 && bok S.d2 T.d2) := rfl
+@[simp] theorem zipWith_get (f : α → α → α) (S T : Arr3 α) (i j k : Nat) : (zipWith f S T).get i j k = f (S.get (bidx S.d0 i) (bidx S.d1 j) (bidx S.d2 k)) (T.get (bidx T.d0 i) (bidx T.d1 j) (bidx T.d2 k)) := rfl
+
+@[simp] theorem neg_d0 (T : Arr3 α) : (neg T).d0 = T.d0 := rfl
+@[simp] theorem neg_d1 (T : Arr3 α) : (neg T).d1 = T.d1 := rfl
+@[simp] theorem neg_d2 (T : Arr3 α) : (neg T).d2 = T.d2 := rfl
+@[simp] theorem neg_ok (T : Arr3 α) : (neg T).ok = T.ok := rfl
+@[simp] theorem neg_get (T : Arr3 α) (i j k : Nat) : (neg T).get i j k = -(T.get i j k) := rfl
+
+@[simp] theorem sign_d0 (T : Arr3 α) : (sign T).d0 = T.d0 := rfl
+@[simp] theorem sign_d1 (T : Arr3 α) : (sign T).d1 = T.d1 := rfl
+@[simp] theorem sign_d2 (T : Arr3 α) : (sign T).d2 = T.d2 := rfl
+@[simp] theorem sign_ok (T : Arr3 α) : (sign T).ok = T.ok := rfl
+@[simp] theorem sign_get (T : Arr3 α) (i j k : Nat) : (sign T).get i j k = RealLike.sign (T.get i j k) := rfl
+
+@[simp] theorem abs_d0 (T : Arr3 α) : (abs T).d0 = T.d0 := rfl
+@[simp] theorem abs_d1 (T : Arr3 α) : (abs T).d1 = T.d1 := rfl
+@[simp] theorem abs_d2 (T : Arr3 α) : (abs T).d2 = T.d2 := rfl
+@[simp] theorem abs_ok (T : Arr3 α) : (abs T).ok = T.ok := rfl
+@[simp] theorem abs_get (T : Arr3 α) (i j k : Nat) : (abs T).get i j k = RealLike.abs (T.get i j k) := rfl
+
+@[simp] theorem smul_d0 (s : α) (T : Arr3 α) : (smul s T).d0 = T.d0 := rfl
+@[simp] theorem smul_d1 (s : α) (T : Arr3 α) : (smul s T).d1 = T.d1 := rfl
+@[simp] theorem smul_d2 (s : α) (T : Arr3 α) : (smul s T).d2 = T.d2 := rfl
+@[simp] theorem smul_ok (s : α) (T : Arr3 α) : (smul s T).ok = T.ok := rfl
+@[simp] theorem smul_get (s : α) (T : Arr3 α) (i j k : Nat) : (smul s T).get i j k = s * T.get i j k := rfl
+
+@[simp] theorem muls_d0 (T : Arr3 α) (s : α) : (muls T s).d0 = T.d0 := rfl
+@[simp] theorem muls_d1 (T : Arr3 α) (s : α) : (muls T s).d1 = T.d1 := rfl
+@[simp] theorem muls_d2 (T : Arr3 α) (s : α) : (muls T s).d2 = T.d2 := rfl
+@[simp] theorem muls_ok (T : Arr3 α) (s : α) : (muls T s).ok = T.ok := rfl
+@[simp] theorem muls_get (T : Arr3 α) (s : α) (i j k : Nat) : (muls T s).get i j k = T.get i j k * s := rfl
+
+@[simp] theorem divs_d0 (T : Arr3 α) (s : α) : (divs T s).d0 = T.d0 := rfl
+@[simp] theorem divs_d1 (T : Arr3 α) (s : α) : (divs T s).d1 = T.d1 := rfl
+@[simp] theorem divs_d2 (T : Arr3 α) (s : α) : (divs T s).d2 = T.d2 := rfl
+@[simp] theorem divs_ok (T : Arr3 α) (s : α) : (divs T s).ok = T.ok := rfl
+@[simp] theorem divs_get (T : Arr3 α) (s : α) (i j k : Nat) : (divs T s).get i j k = T.get i j k / s := rfl
+
+@[simp] theorem sumAxis0_r (T : Arr3 α) : (sumAxis0 T).r = T.d1 := rfl
+@[simp] theorem sumAxis0_c (T : Arr3 α) : (sumAxis0 T).c = T.d2 := rfl
+@[simp] theorem sumAxis0_ok (T : Arr3 α) : (sumAxis0 T).ok = T.ok := rfl
+@[simp] theorem sumAxis0_get (T : Arr3 α) (i j : Nat) : (sumAxis0 T).get i j = sumTo T.d0 fun l => T.get l i j := rfl
+
+@[simp] theorem meanAxis0_r (T : Arr3 α) : (meanAxis0 T).r = T.d1 := rfl
+@[simp] theorem meanAxis0_c (T : Arr3 α) : (meanAxis0 T).c = T.d2 := rfl
+@[simp] theorem meanAxis0_ok (T : Arr3 α) : (meanAxis0 T).ok = T.ok := rfl
+@[simp] theorem meanAxis0_get (T : Arr3 α) (i j : Nat) : (meanAxis0 T).get i j = (sumTo T.d0 fun l => T.get l i j) / nat T.d0 := rfl
+
+@[simp] theorem squeeze1_r (T : Arr3 α) : (squeeze1 T).r = T.d0 := rfl
+@[simp] theorem squeeze1_c (T : Arr3 α) : (squeeze1 T).c = T.d2 := rfl
+@[simp] theorem squeeze1_ok (T : Arr3 α) : (squeeze1 T).ok = (T.ok && T.d1 == 1) := rfl
+@[simp] theorem squeeze1_get (T : Arr3 α) (i j : Nat) : (squeeze1 T).get i j = T.get i 0 j := rfl
+
+@[simp] theorem squeeze2_r (T : Arr3 α) : (squeeze2 T).r = T.d0 := rfl
+@[simp] theorem squeeze2_c (T : Arr3 α) : (squeeze2 T).c = T.d1 := rfl
+@[simp] theorem squeeze2_ok (T : Arr3 α) : (squeeze2 T).ok = (T.ok && T.d2 == 1) := rfl
+@[simp] theorem squeeze2_get (T : Arr3 α) (i j : Nat) : (squeeze2 T).get i j = T.get i j 0 := rfl
+
+end Arr3
+
+namespace Arr
+variable {α : Type} [RealLike α]
+
 /-! ### Python-level checks -/
 
 @[simp] theorem inPlace_r (T R : Arr α) : (inPlace T R).r = R.r := rfl
